@@ -140,7 +140,10 @@ func Main(args []string) int {
 		}
 		for r := 0; r < n; r++ {
 			nrun++
-			f := NewFix(Variants[mode])
+			v := Variants[mode]
+			v.Batch = uint64(1 + rng.Intn(3)) // small sweep batches: the liveness bound is exercised
+			v.LowT1 = mode == "s" && r%2 == 1
+			f := NewFix(v)
 			d := &driver{f: f, e: f.E, rng: rng, lg: lg, mode: mode, run: fmt.Sprintf("drive:%s:%d:%d", mode, *seed, r)}
 			d.behaviour(*steps, r)
 		}
